@@ -98,6 +98,9 @@ func (e *Engine) model(st *State, g *G, fr *Frame, f *ssa.Function, args []Value
 			return SymStr{kind: "fmt." + name, parts: parts}, true, ""
 		}
 		return Opaque{full}, true, ""
+	case full == "(net.IP).String" || full == "(*net.TCPAddr).String" || full == "(*net.IPNet).String":
+		// formatting of an address: an injective symbolic string of the (snapshotted) value
+		return SymStr{kind: full, parts: []Value{e.snapshot(st, args[0], 6)}}, true, ""
 	case pkg == "crypto/sha256" && name == "Sum256":
 		// injective uninterpreted function of its (snapshotted) argument
 		return SymStr{kind: "sha256", parts: []Value{e.snapshot(st, args[0], 6)}}, true, ""
